@@ -82,9 +82,7 @@ def rel (basepath targpath : Str) : Option Str :=
 
 /-- index just after the last '/' : (prefix including it, rest) — `filepath.Split` -/
 def splitLast (s : Str) : Str × Str :=
-  let r := s.reverse
-  let tail := r.takeWhile (· ≠ 47)
-  (( r.drop tail.length).reverse, tail.reverse)
+  ((s.reverse.dropWhile (· ≠ 47)).reverse, (s.reverse.takeWhile (· ≠ 47)).reverse)
 
 /-- `filepath.Dir` -/
 def dir (s : Str) : Str := clean (splitLast s).1
